@@ -1138,4 +1138,217 @@ theorem not_safe_bad (c : Char) (h : safeChar c = false) :
       | some ch => simp [hq, oneEntry]
 
 
+
+/-! ### texts without a backslash: the reader cannot fail -/
+
+def NoBs (l : Str) : Prop := ∀ c ∈ l, c ≠ '\\'
+
+theorem NoBs.tail {c : Char} {l : Str} (h : NoBs (c :: l)) : NoBs l := fun x hx => h x (by simp [hx])
+
+theorem mem_of_mem_dropWhile {p : Char → Bool} {l : Str} {x : Char} (h : x ∈ l.dropWhile p) : x ∈ l := by
+  induction l with
+  | nil => simp at h
+  | cons a r ih =>
+    rw [List.dropWhile_cons] at h
+    split at h
+    · exact List.mem_cons_of_mem _ (ih h)
+    · exact h
+
+theorem NoBs.dropWhile {l : Str} (h : NoBs l) (p : Char → Bool) : NoBs (l.dropWhile p) :=
+  fun x hx => h x (mem_of_mem_dropWhile hx)
+
+theorem ofNat_ne_bs (b : Nat) (h : b ≠ 92) : Char.ofNat b ≠ '\\' := by
+  intro e
+  have e2 := congrArg Char.toNat e
+  by_cases hv : b.isValidChar
+  · have : (Char.ofNat b).toNat = b := by simp [Char.ofNat, hv, Char.ofNatAux, Char.toNat]
+    rw [this] at e2
+    exact h e2
+  · have : Char.ofNat b = '\x00' := by simp [Char.ofNat, hv]; rfl
+    rw [this] at e2
+    exact absurd e2 (by decide)
+
+theorem cp1252High_ne_bs : ∀ i, i < 32 → cp1252High.getD i 0xFFFD ≠ 92 := by decide
+
+theorem cp1252Decode_ne_bs (b : Nat) (h : b ≠ 92) : cp1252Decode b ≠ '\\' := by
+  unfold cp1252Decode
+  split
+  · exact ofNat_ne_bs b h
+  · split
+    · exact ofNat_ne_bs _ (cp1252High_ne_bs _ (by omega))
+    · exact ofNat_ne_bs b h
+
+theorem utf8EncodeChar_bs (c : Char) (b : Nat) (hb : b ∈ utf8EncodeChar c) (h : b = 92) : c = '\\' := by
+  unfold utf8EncodeChar at hb
+  simp only at hb
+  split at hb
+  · simp only [List.mem_cons, List.not_mem_nil, or_false] at hb
+    exact (char_eq_iff _ _).2 (by rw [← hb, h]; rfl)
+  · split at hb
+    · simp only [List.mem_cons, List.not_mem_nil, or_false] at hb; omega
+    · split at hb <;> simp only [List.mem_cons, List.not_mem_nil, or_false] at hb <;> omega
+
+theorem decodeInput_noBs (t : Str) (h : NoBs t) : NoBs (decodeInput t) := by
+  cases t with
+  | nil => intro c hc; simp [decodeInput] at hc
+  | cons c r =>
+    by_cases hf : c.toNat = 0xFEFF
+    · simp only [decodeInput, hf, if_true]
+      exact h.tail
+    · simp only [decodeInput, hf, if_false]
+      intro x hx
+      simp only [List.mem_map, utf8Encode, List.mem_flatMap] at hx
+      obtain ⟨b, ⟨d, hd, hbd⟩, rfl⟩ := hx
+      apply cp1252Decode_ne_bs
+      intro hb
+      exact h d hd (utf8EncodeChar_bs d b hbd hb)
+
+theorem natLines_noBs (input : Str) (hi : NoBs input) (b : Bool) (acc : Str) (ha : NoBs acc) :
+    ∀ l ∈ natLines b acc input, NoBs l := by
+  induction input generalizing b acc with
+  | nil => intro l hl; simp only [natLines, List.mem_cons, List.not_mem_nil, or_false] at hl; subst hl; exact ha
+  | cons c r ih =>
+    have hr := hi.tail
+    have hnil : NoBs [] := fun x hx => by simp at hx
+    intro l hl
+    rw [natLines] at hl
+    split at hl
+    · exact ih hr _ _ ha l hl
+    · split at hl
+      · simp only [List.mem_cons] at hl
+        rcases hl with rfl | hl
+        · exact ha
+        · exact ih hr _ _ hnil l hl
+      · split at hl
+        · simp only [List.mem_cons] at hl
+          rcases hl with rfl | hl
+          · exact ha
+          · exact ih hr _ _ hnil l hl
+        · refine ih hr _ _ ?_ l hl
+          intro x hx
+          simp only [List.mem_append, List.mem_cons, List.not_mem_nil, or_false] at hx
+          rcases hx with hx | rfl
+          · exact ha x hx
+          · exact hi x (by simp)
+
+theorem cntFrom_noBs (l : Str) (h : NoBs l) (n : Nat) : cntFrom n l = 0 ∨ (l = [] ∧ cntFrom n l = n) := by
+  rcases List.eq_nil_or_concat l with rfl | ⟨i, z, rfl⟩
+  · exact Or.inr ⟨rfl, rfl⟩
+  · left
+    rw [List.concat_eq_append]
+    exact cntFrom_snoc n i z (h z (by simp))
+
+theorem logicalLines_noBs (ls : List Str) (h : ∀ l ∈ ls, NoBs l) : logicalLines ls none = ls := by
+  induction ls with
+  | nil => rfl
+  | cons l r ih =>
+    have hc : countEndBs l % 2 = 0 := by
+      rw [countEndBs_eq]
+      rcases cntFrom_noBs l (h l (by simp)) 0 with h0 | ⟨_, h0⟩ <;> rw [h0]
+    rw [logicalLines]
+    simp only [Option.isNone_none, Bool.true_and]
+    rw [ih (fun x hx => h x (by simp [hx]))]
+    by_cases hcm : isCommentLine l = true
+    · simp [hcm]
+    · simp only [hcm, Bool.false_eq_true, if_false]
+      rw [if_neg (by omega)]
+
+theorem spanKey_append (l : Str) : (spanKey l).1 ++ (spanKey l).2 = l := by
+  have key : ∀ l : Str, ((spanKey l).1 ++ (spanKey l).2 = l) ∧
+      ∀ c, (spanKey (c :: l)).1 ++ (spanKey (c :: l)).2 = c :: l := by
+    intro l
+    induction l with
+    | nil =>
+      refine ⟨rfl, fun c => ?_⟩
+      rw [spanKey.eq_def]
+      by_cases hc : c = '\\'
+      · simp [hc]
+      · by_cases hk : c = ':' ∨ c = '=' ∨ isW c = true
+        · simp [hc, hk]
+        · simp [hc, hk, spanKey]
+    | cons a r ih =>
+      refine ⟨ih.2 a, fun c => ?_⟩
+      by_cases hc : c = '\\'
+      · subst hc; rw [spanKey_pair]; simp [ih.1]
+      · rw [spanKey.eq_def]
+        by_cases hk : c = ':' ∨ c = '=' ∨ isW c = true
+        · simp [hc, hk]
+        · simp only [hc, hk, if_false]
+          simp [ih.2 a]
+  exact (key l).1
+
+theorem unescape_noBs (s : Str) (h : NoBs s) : unescape s = .ok s := by
+  induction s with
+  | nil => simp [unescape]
+  | cons c r ih =>
+    rw [unescape_plain c r (h c (by simp)), ih h.tail]; rfl
+
+theorem NoBs.trimEndW {l : Str} (h : NoBs l) : NoBs (trimEndW l) := by
+  intro x hx
+  simp only [JProps.trimEndW, List.mem_reverse] at hx
+  exact h x (by simpa using mem_of_mem_dropWhile hx)
+
+/-- what `parse_line` returns for a line without backslash contains no backslash -/
+theorem parseLine_noBs (l : Str) (h : NoBs l) (p : Parsed) (hp : parseLine l = some p) :
+    match p with
+    | .comment t => NoBs t
+    | .pair k v => NoBs k ∧ NoBs v := by
+  have hnil : NoBs [] := fun x hx => by simp at hx
+  unfold parseLine at hp
+  have hd := h.dropWhile isW
+  cases hl : l.dropWhile isW with
+  | nil => rw [hl] at hp; simp at hp
+  | cons c rest =>
+    rw [hl] at hd hp
+    simp only at hp
+    have hsp := spanKey_append (c :: rest)
+    have hk : NoBs (spanKey (c :: rest)).1 := fun x hx => hd x (by rw [← hsp]; simp [hx])
+    have hr : NoBs (spanKey (c :: rest)).2 := fun x hx => hd x (by rw [← hsp]; simp [hx])
+    have hr' := hr.dropWhile isW
+    split at hp
+    · cases hp
+      exact (hd.tail.dropWhile isW).trimEndW
+    · split at hp
+      · split at hp
+        · cases hp
+        · cases hp; exact ⟨hk, hnil⟩
+      · rename_i heq
+        exact absurd rfl (hr '\\' (by rw [heq]; simp))
+      · split at hp
+        · cases hp; exact ⟨hk, hnil⟩
+        · rename_i d r2 heq
+          rw [heq] at hr'
+          split at hp
+          · cases hp; exact ⟨hk, hr'.tail.dropWhile isW⟩
+          · cases hp; exact ⟨hk, hr'⟩
+
+theorem readLines_noBs (ls : List Str) (h : ∀ l ∈ ls, NoBs l) : ∃ es, readLines ls = .ok es := by
+  induction ls with
+  | nil => exact ⟨[], rfl⟩
+  | cons l r ih =>
+    obtain ⟨es, hes⟩ := ih (fun x hx => h x (by simp [hx]))
+    rw [readLines]
+    cases hq : parseLine l with
+    | none => exact ⟨es, by simpa using hes⟩
+    | some p =>
+      have hp := parseLine_noBs l (h l (by simp)) p hq
+      cases p with
+      | comment t =>
+        simp only at hp ⊢
+        rw [unescape_noBs t hp]
+        exact ⟨es, by simpa using hes⟩
+      | pair k v =>
+        simp only at hp ⊢
+        rw [unescape_noBs k hp.1, unescape_noBs v hp.2, hes]
+        exact ⟨_, rfl⟩
+
+/-- `map_load_properties` cannot fail on a text without backslash -/
+theorem loadProps_noBs (t : Str) (h : NoBs t) : ∃ es, loadProps t = .ok es := by
+  unfold loadProps
+  have h1 := decodeInput_noBs t h
+  have h2 := natLines_noBs _ h1 false [] (fun x hx => by simp at hx)
+  rw [logicalLines_noBs _ h2]
+  exact readLines_noBs _ h2
+
+
 end Duck.JProps
